@@ -19,7 +19,13 @@ func (x *Hex) MarshalJSON() ([]byte, error) {
 }
 
 func (x *Hex) UnmarshalJSON(b []byte) error {
+	if len(b) < 2 || b[0] != '"' || b[len(b)-1] != '"' {
+		return fmt.Errorf("invalid hex string: %s", b)
+	}
 	b = b[1 : len(b)-1]
+	if hex.DecodedLen(len(b)) > len(x) {
+		return fmt.Errorf("hex string too long: %d characters", len(b))
+	}
 	_, err := hex.Decode((*x)[:], b)
 	return err
 }
